@@ -71,7 +71,7 @@ CONTRACTS = [
                    "seq_len(g_re_name) == seq_len(experiments) and forall(i, 'int', implies(0 <= i and i < seq_len(experiments),"
                    " select(g_re_name, i) == select(experiments, i).name and select(g_re_run, i) == run"
                    " and select(g_re_par, i) == select(experiments, i).parallelizable and select(g_re_args, i) == select(experiments, i).args"
-                   " and select(g_re_opts, i) == select(experiments, i).options))"),
+                   " and select(g_re_opts, i) == select(experiments, i).options))", "C19", "C04", "C07", "C10"),
                  C("unchained_instances_get_exactly_the_shared_deps",
                    "forall(i, 'int', implies(0 <= i and i < seq_len(experiments) and (not chain_experiments or i == 0),"
                    " seq_len(select(g_re_deps, i)) == (seq_len(some(deps)) if deps is not None else 0) and"
